@@ -65,6 +65,10 @@ def run_family(ctx: Ctx, *, mc, sanity, sims, preds, problem_kinds, note_sample=
     need = {"Create", "BeginFiller", "Write", "ExitFiller"}
     if not need <= set(labels_seen):
         raise MachineryError(f"vacuous simulation: actions never taken: {need - set(labels_seen)}")
+    if "R11" in preds:
+        # C11 also reads the dataset back THROUGH the library's selection by shard metadata at every quiescent point
+        for t in tasks:
+            t["checks"] = list(H.ALL_CHECKS) + ["R11"]
     outs = H.run_histories(tasks)
     judge_outputs(ctx, tasks, outs, preds, problem_kinds)
 
@@ -114,7 +118,7 @@ def judge_outputs(ctx: Ctx, tasks, outs, preds, problem_kinds):
                           f"the history",
                           {"task": _slim(task), "step": states[k].get("step"), "predicate": pred,
                            "state": {"files": states[k]["files"], "mem": states[k]["mem"],
-                                     "readback": states[k].get("readback")}})
+                                     "readback": states[k].get("readback"), "rbsel": states[k].get("rbsel")}})
     ctx.cov["histories_replayed"] = ctx.cov.get("histories_replayed", 0) + n_hist
     ctx.cov["histories_distinct"] = ctx.cov.get("histories_distinct", 0) + len(distinct)
     ctx.cov["histories_equal_to_spec_state_at_every_quiescent_point"] = \
@@ -193,6 +197,13 @@ def plan(ctx: Ctx, prop: str):
         # datasets without checksum algorithms (hash_checksum_algorithms=()): the metadata then carries no digests
         sims.append(("sim_tree_no_checksums", c(MaxSessions=3, MaxWrites=3, Hashing=False), 12 if q else 300, 40,
                      [("fb", "", ()), ("npz", "", ()), ("tfrec", "", ())][:2], 2))
+        if prop == "C03":
+            # write order across shard-level metadata changes (a label that goes away and comes back while its shard
+            # is not full: A B A), good and rejected writes interleaved
+            mc.append(shard5)
+            sims.append(("sim_label_returns", c(Splits=FS({"train"}), FillerDirs=ROOT_ONLY, MaxK=1, MaxSessions=1,
+                                                MaxWrites=6, MDs=FS({"A", "B"}), EPS=3), n(16, 400), 30,
+                         _targets(ctx, False), 3))
     elif prop == "C10":
         mc = [shard5] + ([] if q else [shard23]) + [
             ("shard_eps1", c(Splits=FS({"train"}), FillerDirs=ROOT_ONLY, MaxK=1, MaxSessions=1, MaxWrites=4, MDs=MD3,
@@ -209,6 +220,10 @@ def plan(ctx: Ctx, prop: str):
                                                MaxWrites=3, MDs=FS({"None", "REF"}), UseRef=True, MdByRef=True),
                    "C11_Label")]
         sims = [sim_ref, sim_shard(False, 2), sim_shard(True, 2)]
+        # labelled sessions into a dataset without checksum algorithms, selected by label after every session
+        sims.append(("sim_labels_no_checksums", c(Splits=FS({"train"}), FillerDirs=FS({(), ("s",)}), MaxK=1,
+                                                  MaxSessions=3, MaxWrites=4, MDs=MD3, Hashing=False),
+                     n(10, 300), 40, [("fb", "", ()), ("npz", "", ()), ("tfrec", "", ())][:2], 2))
     elif prop == "C18":
         mc = [shard5, stream] + ([] if q else [shard23])
         sanity = [("rollover_of_empty_shard", c(Splits=FS({"train"}), FillerDirs=ROOT_ONLY, MaxK=1, MaxSessions=1,
@@ -226,7 +241,7 @@ PREDS = {
                              "good-write-rejected", "readback-raised"}),
     "C03": ({"C03", "R03"}, set()),
     "C10": ({"C10"}, set()),
-    "C11": ({"C11"}, set()),
+    "C11": ({"C11", "R11"}, set()),
     "C18": ({"C18"}, {"session-failed", "good-write-rejected", "bad-shape-accepted", "readback-raised"}),
 }
 
